@@ -190,7 +190,8 @@ def rule_tags(rep: Report, rid="C04.tags") -> None:
         if k != "e":
             continue
         d = nf.resolve_ref_dict(I, t, tree)
-        ok = d is not None and set(d) == {"column", "text"} and d["column"][0] == phi and d["text"][0] == ("binop", "Add", const("@"), ("call", ".strip", (el,), ()))
+        ok = d is not None and set(d) == {"column", "text"} and d["column"][0] == phi \
+            and _str_parts(d["text"][0]) == _str_parts(("binop", "Add", const("@"), ("call", ".strip", (el,), ())))
         rep.ob(rid, "a tag item records the column before the advance and the text '@' + trimmed piece", ok, file=LFILE, line=fi.node.lineno, function=fi.qualname,
                expected="{'column': column, 'text': '@' + item.strip()}", found=fmt(t, I))
     # whitespace error: raised with the current tag's column, ParserException
@@ -208,7 +209,7 @@ def rule_tags(rep: Report, rid="C04.tags") -> None:
             cc, pp = c, p
             if cc[0] == "cmp" and cc[1] == "Is" and is_const(cc[3], None):
                 cc, pp = cc[2], not pp
-            if cc[0] == "call" and cc[1] in ("re.search",) and pp and is_const(cc[2][0]) and cc[2][1] == tagv \
+            if cc[0] == "call" and cc[1] in ("re.search",) and pp and is_const(cc[2][0]) and _str_parts(cc[2][1]) == _str_parts(tagv) \
                     and regexnf.same(cc[2][0][1], 0, r"\s"):
                 okg = True
         cls = I.obj(n[1]).cls.name if isinstance(I.obj(n[1]), HInst) else None
@@ -219,9 +220,26 @@ def rule_tags(rep: Report, rid="C04.tags") -> None:
 
 
 def _splitter_body(fi):
-    """The single character loop of the splitter: ``while True: c = next(it, None) ...`` or ``for c in it: ...``."""
+    """The single character loop of the splitter: ``while True: c = next(it, None) ...`` or ``for c in it: ...``.
+    ``while c := next(it, None): ...`` is read as the first form: the character is fetched, the loop ends when it is false."""
     loops = [n for n in fi.node.body if isinstance(n, (ast.While, ast.For))]
-    return loops[0] if len(loops) == 1 else None
+    if len(loops) != 1:
+        return None
+    lp = loops[0]
+    if isinstance(lp, ast.While) and isinstance(lp.test, ast.NamedExpr) and not lp.orelse:
+        cached = getattr(lp, "_as_while_true", None)
+        if cached is None:
+            fetch = ast.Assign(targets=[ast.Name(id=lp.test.target.id, ctx=ast.Store())], value=lp.test.value)
+            stop = ast.If(test=ast.UnaryOp(op=ast.Not(), operand=ast.Name(id=lp.test.target.id, ctx=ast.Load())), body=[ast.Break()], orelse=[])
+            cached = ast.While(test=ast.Constant(value=True), body=[fetch, stop] + list(lp.body), orelse=[])
+            for x in (fetch, stop, cached):
+                ast.copy_location(x, lp)
+            ast.fix_missing_locations(cached)
+            lp._as_while_true = cached
+            # the function body seen by the analysis has the rewritten loop in the original's place
+            fi.node.body[fi.node.body.index(lp)] = cached
+        return cached
+    return lp
 
 
 END = object()
@@ -381,6 +399,17 @@ def splitter_table():
     pre_I, act, rowp, init = _stage_init(cfi, cloop)
     # variables: iterator, col, start_col, cell, first flag -- discovered by value
     it_vars = [k for k, v in init.items() if (v[0] == "call" and v[1] == "iter" and v[2] == (rowp,)) or _enum_start(v, rowp) is not None]
+    direct = False
+    if not it_vars and is_for:
+        # ``for c in row`` / ``for i, c in enumerate(row)``: the loop's own iterator, nobody else can advance it
+        pst = State(env=dict(init))
+        pre_I.stack.append(act)
+        over0 = pre_I.ev(pst, cloop.iter, [])
+        pre_I.stack.pop()
+        if over0 == rowp or _enum_start(over0, rowp) is not None:
+            init["__row_iterator"] = over0
+            it_vars = ["__row_iterator"]
+            direct = True
     if len(it_vars) != 1:
         return None, [f"the row is not scanned through one iterator (iter(row) / enumerate(row)): {sorted(init)}"], fi
     itv = it_vars[0]
@@ -390,7 +419,7 @@ def splitter_table():
     if enum is not None:
         init[ENUM_COL] = const(enum - 1)
     seqs = [["|"], ["\\", "n"], ["\\", "|"], ["\\", "\\"], ["\\", "x"], ["\\", END], ["x"], ["n"], [END]]
-    if is_for:
+    if is_for and not direct:
         pst = State(env=dict(init))
         pre_I.stack.append(act)
         over = pre_I.ev(pst, cloop.iter, [])
@@ -406,6 +435,22 @@ def splitter_table():
             return None, [f"two-stage splitter whose stages share local names: {sorted(clash)}"], fi
         state_init.update(outer[2])
     flags = [k for k, v in state_init.items() if is_const(v) and isinstance(v[1], bool)]
+    modes = []
+    if len(flags) > 1 and is_for and outer is None:
+        # several boolean state variables: the one the first pipe flips is "before the first pipe"; the others are modes of the
+        # scan (an escape pending) - clear at every character boundary the classes start from
+        probe_I = new_interp()
+        pst = State(env=dict(state_init))
+        probe_I.stack.append(Activation(cfi, 0))
+        tgt0 = const("|") if _enum_start(init[itv], rowp) is None else ("tuple", (const(0), const("|")))
+        probe_I.bind_target(pst, cloop.target, tgt0)
+        po = probe_I.exec_block(cloop.body, pst, [])
+        probe_I.stack.pop()
+        pend = po.live or po.cont or po.brk
+        flipped = [k for k in flags if pend is not None and pend.env.get(k) != state_init[k]]
+        if len(flipped) == 1:
+            modes = [k for k in flags if k != flipped[0]]
+            flags = flipped
     if len(flags) != 1:
         return None, [f"no single 'before the first pipe' boolean flag: {sorted(state_init)}"], fi
     flag = flags[0]
@@ -421,6 +466,8 @@ def splitter_table():
                     st.env[k] = v
                 elif k == flag:
                     st.env[k] = const(before if first else not before)
+                elif k in modes:
+                    st.env[k] = v
                 else:
                     sym[k] = ("param", k)
                     st.env[k] = ("param", k)
@@ -462,6 +509,16 @@ def splitter_table():
                 if is_for:
                     I2.bind_target(st, cloop.target, item_of(feed.pop(0)))
                 out = I2.exec_block(cloop.body, st, tree)
+                # a loop that takes one character per round (a pending escape is a mode of the next round): the rounds
+                # the rest of the class sequence takes
+                while is_for and feed and out.brk is None and (out.live or out.cont) is not None:
+                    cur_ = out.live or out.cont
+                    if feed[0] is END:
+                        feed.pop(0)
+                        out = Outcome(brk=cur_)
+                        break
+                    I2.bind_target(cur_, cloop.target, item_of(feed.pop(0)))
+                    out = I2.exec_block(cloop.body, cur_, tree)
             I2.stack.pop()
             end = out.live or out.cont or out.brk
             undecided = [n for n, _ in nf.iter_nodes(tree) if n[0] == "if"]
@@ -518,7 +575,7 @@ def splitter_table():
             if late_yield and seq[0] is END:
                 yields.append(("opaque", "yield after the loop"))
             rows.append({"first": first, "seq": seq, "consumed": len(seq) - len(feed), "leftover": list(feed), "break": broke,
-                         "env": dict(end.env) if end else {}, "yields": yields, "undecided": undecided, "I": I2, "sym": sym, "flag": flag, "before": before,
+                         "env": dict(end.env) if end else {}, "yields": yields, "undecided": undecided, "I": I2, "sym": sym, "flag": flag, "before": before, "init": state_init, "modes": modes,
                          "bare_next": [d for d in calls if d == ("nodefault",)], "raises": raises})
     return rows, problems, fi
 
@@ -552,10 +609,17 @@ def rule_split(rep: Report, rid="C12.split", rid_col="C04.cells") -> None:
         want_consumed = 1 if lead is not END and lead != "\\" else (2 if lead == "\\" else 1)
         rep.eq(rid, f"{name}: consumes {'the escape pair' if lead == chr(92) else 'one character'}", want_consumed, r["consumed"], **kw)
         want_break = lead is END
+        if seq[-1] is END and not want_break and r["break"]:
+            # an escape character as the very last character: the row ends here either way, and what follows the last pipe is
+            # dropped - whether the lone backslash was still put into that text or not cannot be observed
+            rep.ob(rid, f"{name}: text after the last pipe is dropped (nothing is yielded at the end)", not r["yields"], **kw, expected="no yield", found=[fmt(y, I) for y in r["yields"]])
+            continue
         rep.eq(rid, f"{name}: " + ("ends the scan" if want_break else "continues the scan"), want_break, r["break"], **kw)
         if want_break:
             rep.ob(rid, f"{name}: text after the last pipe is dropped (nothing is yielded at the end)", not r["yields"], **kw, expected="no yield", found=[fmt(y, I) for y in r["yields"]])
             continue
+        for mk in r.get("modes", ()):
+            rep.eq(rid, f"{name}: afterwards the scan is at a character boundary again (no escape pending: {mk})", r["init"].get(mk), env.get(mk), **kw)
         # which symbolic variable is the cell text? the one whose value gets a string appended on an ordinary char
         # resolve roles lazily (shared across rows)
         roles = _roles(rows)
@@ -566,6 +630,11 @@ def rule_split(rep: Report, rid="C12.split", rid_col="C04.cells") -> None:
         cellv, colv, startv = roles
         cell0, col0, start0 = ("param", cellv), ("param", colv), ("param", startv)
         got_cell = _str_parts(env.get(cellv, ("undef",)))
+        # the conventions of the bookkeeping: the counter's value before anything is consumed (c0), and what is added to the
+        # recorded start when a cell is handed out (k) - columns handed out are 1-based positions whatever the two are
+        c0v = r["init"].get(colv)
+        c0 = c0v[1] if c0v is not None and is_const(c0v) and isinstance(c0v[1], int) else 0
+        koff = _yield_offset(rows, startv)
         ncons = want_consumed
         if seq[-1] is not END:
             # (after the end of the row nothing is yielded any more, so the counter is no longer read)
@@ -575,11 +644,13 @@ def rule_split(rep: Report, rid="C12.split", rid_col="C04.cells") -> None:
             rep.eq(rid, f"{name}: " + ("opens the first cell without yielding" if first else "yields the finished cell"), 0 if first else 1, len(r["yields"]), **kw)
             if not first and r["yields"]:
                 y = r["yields"][0]
-                ok = y[0] == "tuple" and len(y[1]) == 2 and y[1][0] == cell0 and y[1][1] == start0
+                ok = y[0] == "tuple" and len(y[1]) == 2 and y[1][0] == cell0 and koff is not None and lin_eq(y[1][1], ("binop", "Add", start0, const(koff)))
                 rep.ob(rid_col, f"{name}: the yielded pair is (cell text so far, that cell's start column)", ok, **kw, expected="(cell, start_col)", found=fmt(y, I))
             rep.ob(rid, f"{name}: a new empty cell starts", got_cell == [], **kw, expected="''", found=[fmt(x, I) for x in got_cell])
-            rep.ob(rid_col, f"{name}: the new cell starts one column after the pipe", lin_eq(env.get(startv, NONE), ("binop", "Add", col0, const(2))), **kw,
-                   expected="start_col = (col + 1) + 1", found=fmt(env.get(startv, NONE), I))
+            rep.ob(rid_col, f"{name}: the new cell starts one column after the pipe", koff is not None
+                   and lin_eq(("binop", "Add", env.get(startv, NONE), const(koff)), ("binop", "Add", col0, const(2 - c0))), **kw,
+                   expected="start_col = (col + 1) + 1" + ("" if (c0, koff) == (0, 0) else f"  (counter starts at {c0}, {koff} is added when the cell is handed out)"),
+                   found=fmt(env.get(startv, NONE), I))
             rep.eq(rid, f"{name}: afterwards the scan is inside a cell", const(not r["before"]), env.get(r["flag"]), **kw)
             continue
         rep.ob(rid, f"{name}: nothing is yielded", not r["yields"], **kw, expected="no yield", found=[fmt(y, I) for y in r["yields"]])
@@ -593,6 +664,20 @@ def rule_split(rep: Report, rid="C12.split", rid_col="C04.cells") -> None:
             want = lead
             what = "is appended"
         rep.eq(rid, f"{name}: {show(seq)!r} {what}", [fmt(cell0, I), repr(want)], [fmt(x, I) for x in got_cell], **kw)
+
+
+def _yield_offset(rows, startv):
+    """k such that a finished cell is handed out with column ``start + k`` (0 when the recorded start is the column itself)."""
+    r_p = next((r for r in rows if not r["first"] and r["seq"] == ["|"]), None)
+    if r_p is None or not r_p["yields"]:
+        return None
+    y = r_p["yields"][0]
+    if not (y[0] == "tuple" and len(y[1]) == 2):
+        return None
+    d = lin(("binop", "Sub", y[1][1], ("param", startv)))
+    if d is None or any(k != 1 for k in d):
+        return None
+    return d.get(1, 0)
 
 
 def _roles(rows):
@@ -648,8 +733,12 @@ def rule_split_init(rep: Report, rid="C04.cells", rid_trim=None) -> None:
     if colv == ENUM_COL:
         es = [e for e in (_enum_start(v, ("param", fi.params()[-1])) for v in st.env.values()) if e is not None]
         st.env[ENUM_COL] = const(es[0] - 1) if len(es) == 1 else NONE
-    rep.eq(rid, "the column counter starts at 0 (nothing consumed)", const(0), st.env.get(colv), **kw)
-    rep.eq(rid, "the first cell would start at column 1", const(1), st.env.get(startv), **kw)
+    c0v, s0v = st.env.get(colv), st.env.get(startv)
+    koff = _yield_offset(rows, startv)
+    rep.ob(rid, "the column counter starts at a fixed value (nothing consumed)", c0v is not None and is_const(c0v) and isinstance(c0v[1], int), **kw,
+           expected="col = 0", found=fmt(c0v, I2) if c0v is not None else None)
+    rep.ob(rid, "the first cell would start at column 1", s0v is not None and is_const(s0v) and isinstance(s0v[1], int) and koff is not None and s0v[1] + koff == 1, **kw,
+           expected="start_col = 1", found=(fmt(s0v, I2) if s0v is not None else None, koff))
     cell0 = st.env.get(cellv)
     if isinstance(I2.obj(cell0), HList) and not I2.obj(cell0).segs:
         cell0 = const("")           # an empty list of pieces spells the empty text
